@@ -311,8 +311,7 @@ Proof.
 Qed.
 
 Definition missing_b (e : elem) (pc : option (option str * Z)) : bool :=
-  C15_spec.usage_is (e_usage e) "R" &&
-  negb ((e_seq e =? 1)%Z && match pc with Some (pu, _) => negb (C15_spec.usage_is pu "R") | None => false end).
+  C15_spec.usage_is (e_usage e) "R".
 
 Lemma empty_case sub c e de pc d fs :
   wf_def c e de -> d = None \/ d = Some [[]] ->
@@ -325,10 +324,8 @@ Proof.
   destruct Hd; subst d; unfold elem_is_valid; cbn [ed_value];
   change MapTree.usage_is with C15_spec.usage_is;
   destruct Hu as [Hu|[Hu|Hu]].
-  all: try (rewrite (usage_excl _ "R" "N" Hu eq_refl), (usage_excl _ "R" "S" Hu eq_refl), Hu; cbn [orb andb];
-    destruct (e_seq e =? 1)%Z; cbn [negb orb andb]; [|split; reflexivity];
-    destruct pc as [[pu s0]|]; [|split; reflexivity];
-    destruct (C15_spec.usage_is pu "R"); split; reflexivity).
+  all: try (rewrite (usage_excl _ "R" "N" Hu eq_refl), (usage_excl _ "R" "S" Hu eq_refl), Hu; cbn [orb andb negb];
+    split; reflexivity).
   all: try (rewrite Hu, (usage_excl _ "S" "R" Hu eq_refl), orb_true_r; split; reflexivity).
   all: rewrite Hu, (usage_excl _ "N" "R" Hu eq_refl); split; reflexivity.
 Qed.
@@ -383,8 +380,8 @@ Lemma implies_absent ch iv c e de pc fs v code :
   v = None \/ v = Some [] ->
   implies ch iv (def_of c e de pc) fs v code = str_eqb code (cs "1") && missing_b e pc.
 Proof.
-  intros [H|H]; subst v; unfold implies, missing_b, def_of; cbn [d_usage d_first_of_optional_composite];
-  rewrite andb_assoc; reflexivity.
+  intros [H|H]; subst v; unfold implies, missing_b, def_of; cbn [d_usage];
+  reflexivity.
 Qed.
 
 (* the four situations of a call *)
